@@ -504,7 +504,19 @@ class App:
                 return out
             m = lambda z: float(g @ z + 0.5 * z @ (H @ z))
             scale = abs(m(ref)) + np.linalg.norm(g) * D + 0.5 * np.linalg.norm(H, 2) * D * D + 1e-300
-            ctx.require(np.linalg.norm(s) <= D * (1 + 1e-6), 'C06', 'treigen/inside',
+            # boundary accuracy: the solver asks for 1e-9 relative, but cannot do better than the resolution of
+            # the multiplier: |d|p|/d lam| * ulp(lam).  Derived from the oracle's own decomposition.
+            wv, Vv = np.linalg.eigh(H)
+            gt = Vv.T @ g
+            lam_s = float(max(0.0, -(s @ (H @ s) + g @ s) / max(s @ s, 1e-300)))      # Rayleigh estimate of the multiplier at s
+            with np.errstate(divide='ignore', invalid='ignore'):
+                den = np.abs(wv + lam_s)
+                sens = float(np.sum(gt * gt / np.maximum(den, 1e-300) ** 3) / max(np.linalg.norm(s), 1e-300))
+            res_lim = 64 * np.spacing(max(lam_s, np.max(np.abs(wv)))) * sens / D
+            inside_tol = 1e-7 + (res_lim if np.isfinite(res_lim) else 0.0)
+            if inside_tol > 1e-2:
+                ctx.skip('C06.treigen/inside_uninformative')
+            ctx.require(inside_tol > 1e-2 or np.linalg.norm(s) <= D * (1 + inside_tol), 'C06', 'treigen/inside',
                         lambda: 'exact sub-problem step has norm %.12g > radius %.12g' % (np.linalg.norm(s), D), sig={'hard': hard})
             ctx.require(m(s) <= m(ref) + 1e-6 * scale, 'C06', 'treigen/global_minimiser',
                         lambda: 'model value %.12g at the returned step, global minimum over the ball is %.12g (dimension %d, %s)'
